@@ -40,46 +40,79 @@ def run(prog: Program, res: Result, tier: str) -> None:
     else:
         dv = divs[0] if divs else divs_op[0]
         den = dv.args[1] if divs else dv.right
-        if not isinstance(den, ast.Name):
-            res.bad("R1", ez, dv, "the divisor is not a local scale variable", key=key)
+        dn = cfg.node_for(dv)
+        ex = flow.expand(den, dn)
+
+        def zero_test(z: ast.AST, raw: str) -> bool:
+            """z is `np.isclose(raw, 0)` or `raw == 0`."""
+            if isinstance(z, ast.Call) and dotted(z.func) == "np.isclose" and len(z.args) >= 2 and norm(z.args[0]) == raw and norm(z.args[1]) in ("0", "0.0"):
+                return True
+            return isinstance(z, ast.Compare) and len(z.ops) == 1 and isinstance(z.ops[0], ast.Eq) and norm(z.left) == raw and norm(z.comparators[0]) in ("0", "0.0")
+
+        def replaced(w: ast.AST, raw: str) -> bool:
+            """w is np.where(<zero test of raw>, 1, raw)."""
+            return isinstance(w, ast.Call) and dotted(w.func) == "np.where" and len(w.args) == 3 and norm(w.args[1]) in ("1", "1.0") and \
+                norm(w.args[2]) == raw and zero_test(w.args[0], raw)
+
+        ok = False
+        why = ""
+        if isinstance(ex, ast.IfExp):
+            # replaced only when some lane has a zero scale: if np.any(Z): scale = np.where(Z, 1, scale)
+            t = ex.test
+            for body, other in ((ex.body, ex.orelse), (ex.orelse, ex.body)):
+                raw = norm(other)
+                if replaced(body, raw):
+                    anyz = t.operand if (body is ex.orelse and isinstance(t, ast.UnaryOp) and isinstance(t.op, ast.Not)) else t
+                    if body is ex.orelse and anyz is t:
+                        continue
+                    ok = isinstance(anyz, ast.Call) and dotted(anyz.func) in ("np.any", "np.sometrue") and len(anyz.args) == 1 and zero_test(anyz.args[0], raw)
+                    if not ok:
+                        why = "the zero-scale replacement is not applied exactly when some scale is (close to) zero"
+        elif isinstance(ex, ast.Call):
+            ok = replaced(ex, norm(ex.args[2])) if len(ex.args) == 3 else False
+        if ok:
+            res.ok("R1", ez, dv, "zero (or tiny) scales are replaced by 1 before the division; other paths have no zero scale", key=key)
         else:
-            dn = cfg.node_for(dv)
-            ds = flow.reaching(den.id, dn)
-            fixes = [d for d in ds if d.value is not None and norm(d.value).startswith("np.where(") and ", 1, " in norm(d.value)]
-            raw = [d for d in ds if d not in fixes]
-            ok = bool(fixes)
-            why = ""
-            for f in fixes:
-                # the replacement is under `if np.any(<zero test>)` where <zero test> = np.isclose(scale, 0) (or == 0)
-                st = f.stmt
-                g = parent(st)
-                mask = f.value.args[0]
-                mds = flow.reaching(norm(mask), f.node) if isinstance(mask, ast.Name) else []
-                mok = len(mds) == 1 and norm(mds[0].value) in (f"np.isclose({den.id}, 0)", f"{den.id} == 0")
-                gok = isinstance(g, ast.If) and norm(g.test) == f"np.any({norm(mask)})" and not g.orelse
-                if not (mok and gok and norm(f.value) == f"np.where({norm(mask)}, 1, {den.id})"):
-                    ok = False
-                    why = "the zero-scale replacement is not np.where(np.isclose(scale, 0), 1, scale) under if np.any(...)"
-            # raw definitions may reach the division only by skipping the guard (i.e. when no zero scale exists): they must all be
-            # defined before the guard, and the guard must sit between them and the division
-            if ok:
-                gnode = cfg.node_for(parent(fixes[0].stmt))
-                for r in raw:
-                    if not cfg.must_pass(r.node, dn, {gnode}):
-                        ok = False
-                        why = "a scale definition reaches the division without passing the zero-scale test"
-            if ok:
-                res.ok("R1", ez, dv, "zero (or tiny) scales are replaced by 1 before the division; other paths have no zero scale", key=key)
-            else:
-                res.bad("R1", ez, dv, why or "the scale reaches the division without a zero-scale fallback: constant lanes give inf/NaN z-scores", key=key)
-    src = norm(ez.node)
-    ok = "zscores = np.subtract(data, loc, dtype=np.float32)" in src and "np.divide(zscores, scale, out=zscores)" in src and \
-        "return ZScoreResult(data=zscores, loc=np.asarray(loc), scale=np.asarray(scale))" in src
-    (res.ok if ok else res.bad)("R1", ez, ez.node, "z = (data - loc) / scale, and the loc/scale actually used are reported" if ok else
-                                "estimate_zscore no longer computes (data - loc)/scale with the guarded scale", construct="zscore", key="zscore:formula")
-    ok = "else estimate_loc(data, loc_method, axis, keepdims=True)" in src and "else estimate_scale(data, scale_method, axis, keepdims=True)" in src
-    (res.ok if ok else res.bad)("R4", ez, ez.node, "loc and scale are estimated along the same axis with keepdims (broadcast against the input)" if ok else
-                                "loc and scale are not both estimated with (axis, keepdims=True)", construct="keepdims", key="zscore:keepdims")
+            res.bad("R1", ez, dv, why or "the scale reaches the division without a zero-scale fallback: constant lanes give inf/NaN z-scores", key=key)
+    from ..normalform import canon
+    # z = (data - loc) / scale in place, and what is reported is what was used
+    okf = False
+    if len(divs) == 1 and not divs_op:
+        dv = divs[0]
+        outk = next((k.value for k in dv.keywords if k.arg == "out"), dv.args[2] if len(dv.args) > 2 else None)
+        z = dv.args[0] if dv.args else None
+        if isinstance(z, ast.Name) and isinstance(outk, ast.Name) and outk.id == z.id and len(dv.args) >= 2:
+            zd = [d for d in flow.reaching(z.id, cfg.node_for(dv)) if d.kind == "assign"]
+            rets = [s_ for s_ in body_walk(ez.node) if isinstance(s_, ast.Return) and isinstance(s_.value, ast.Call) and dotted(s_.value.func) == "ZScoreResult"]
+            if len(zd) == 1 and len(rets) == 1:
+                sub = zd[0].value
+                loc_used = None
+                if isinstance(sub, ast.Call) and dotted(sub.func) == "np.subtract" and len(sub.args) >= 2 and norm(sub.args[0]) == "data":
+                    loc_used = flow.expand(sub.args[1], zd[0].node)
+                elif isinstance(sub, ast.BinOp) and isinstance(sub.op, ast.Sub) and norm(sub.left) == "data":
+                    loc_used = flow.expand(sub.right, zd[0].node)
+                kw = {k.arg: k.value for k in rets[0].value.keywords}
+                for name_, a_ in zip(("data", "loc", "scale"), rets[0].value.args):
+                    kw.setdefault(name_, a_)
+                rn = cfg.node_for(rets[0])
+
+                def unwrap(e):
+                    return e.args[0] if isinstance(e, ast.Call) and dotted(e.func) in ("np.asarray", "np.asanyarray", "np.array") and e.args else e
+                if loc_used is not None and {"data", "loc", "scale"} <= set(kw):
+                    okf = norm(kw["data"]) == z.id and canon(flow.expand(unwrap(kw["loc"]), rn)) == canon(loc_used) and \
+                        canon(flow.expand(unwrap(kw["scale"]), rn)) == canon(flow.expand(dv.args[1], cfg.node_for(dv)))
+    (res.ok if okf else res.bad)("R1", ez, ez.node, "z = (data - loc) / scale, and the loc/scale actually used are reported" if okf else
+                                 "estimate_zscore no longer computes (data - loc)/scale with the guarded scale", construct="zscore", key="zscore:formula")
+    okk = True
+    for callee in ("estimate_loc", "estimate_scale"):
+        cs_ = [c for c in calls_in_body(ez.node) if dotted(c.func) == callee]
+        okk = okk and len(cs_) == 1
+        for c in cs_:
+            b_ = prog.bind_args(c, prog.func(S, callee))
+            okk = okk and norm(b_.get("axis", ast.Constant(None))) == "axis" and norm(b_.get("keepdims", ast.Constant(False))) == "True" and \
+                norm(next(iter(b_.values()))) == "data"
+    (res.ok if okk else res.bad)("R4", ez, ez.node, "loc and scale are estimated along the same axis with keepdims (broadcast against the input)" if okk else
+                                 "loc and scale are not both estimated with (axis, keepdims=True)", construct="keepdims", key="zscore:keepdims")
 
     # ---- R2 exhaustiveness ---------------------------------------------------------------------------
     def literal(name):
@@ -95,11 +128,17 @@ def run(prog: Program, res: Result, tier: str) -> None:
     if table and isinstance(table[0].value, ast.Dict):
         for k, v in zip(table[0].value.keys, table[0].value.values):
             impl[k.value] = dotted(v)
-    src = norm(es.node)
-    direct = {"std"} if "if method == 'std': return np.std(data, axis=axis, keepdims=keepdims, dtype=np.float64)" in src else set()
+    from ..pathcond import guarded, holds as _holds, path_conditions as _pcs, rejection as _rejection
+    pcs = _pcs(flow_of(es))
+    direct = set()
+    for r_ in [s_ for s_ in body_walk(es.node) if isinstance(s_, ast.Return) and s_.value is not None]:
+        if _holds(pcs, r_, "method == 'std'") is not None and canon(r_.value) == canon("np.std(data, axis=axis, keepdims=keepdims, dtype=np.float64)"):
+            direct.add("std")
     missing = [n for n in scale_names if n not in impl and n not in direct]
     undefined = [f for f in impl.values() if not prog.has_func(S, f or "?")]
-    raises = "if scale_func is None:" in src and "raise ValueError(msg)" in src
+    impl_calls = [c for c in calls_in_body(es.node) if dotted(c.func) == "scale_func"]
+    raises = bool(impl_calls) and all((f_ := _holds(pcs, c, "scale_func is not None")) is not None and "ValueError" in (_rejection(pcs, f_) or ())
+                                      for c in impl_calls)
     key = "scale:exhaustive"
     # doublemad is implemented but only reachable with the explicit name (not in ScaleMethods): allowed extra
     if not missing and not undefined and raises:
@@ -108,18 +147,29 @@ def run(prog: Program, res: Result, tier: str) -> None:
         res.bad("R2", es, es.node, f"ScaleMethods without implementation: {missing}; table entries without function: {undefined}; unknown raises: {raises}",
                 construct="scale dispatch", key=key)
     el = prog.func(S, "estimate_loc")
-    src = norm(el.node)
-    ok = all(f"if method == '{n}':" in src for n in loc_names) and src.rstrip().endswith("raise ValueError(msg)") and \
-        "return np.mean(data, axis=axis, keepdims=keepdims, dtype=np.float64)" in src and "return np.median(data, axis=axis, keepdims=keepdims)" in src
+    pcl = _pcs(flow_of(el))
+    want_loc = {"mean": canon("np.mean(data, axis=axis, keepdims=keepdims, dtype=np.float64)"), "median": canon("np.median(data, axis=axis, keepdims=keepdims)")}
+    rets_l = [s_ for s_ in body_walk(el.node) if isinstance(s_, ast.Return) and s_.value is not None]
+    found = {}
+    ok = True
+    for r_ in rets_l:
+        names_here = [n for n in loc_names if _holds(pcl, r_, f"method == '{n}'") is not None]
+        if len(names_here) != 1:
+            ok = False   # a return that is not selected by exactly one method name: unknown names would not raise
+            continue
+        found[names_here[0]] = canon(r_.value)
+    ok = ok and set(found) == set(loc_names) and all(found[n] == want_loc.get(n, found[n]) for n in loc_names) and \
+        any(isinstance(s_, ast.Raise) for s_ in body_walk(el.node))
     (res.ok if ok else res.bad)("R2", el, el.node, f"LocMethods {loc_names} each reduce along (axis, keepdims); unknown names raise" if ok else
                                 "estimate_loc: a LocMethods name has no branch or the axis/keepdims are not forwarded", construct="loc dispatch", key="loc:exhaustive")
 
     # ---- R3 lane discipline --------------------------------------------------------------------------------
     aa = prog.func(U, "apply_along_axes")
-    src = norm(aa.node)
-    ok = "if axis is None: return func(data.ravel())" in src and "moved_data = np.moveaxis(data, axis, range(len(axis)))" in src and \
-        "reshaped_data = moved_data.reshape(-1, *moved_data.shape[len(axis):])" in src and \
-        "return np.apply_along_axis(func, axis=0, arr=reshaped_data)" in src
+    from .. import kernelspec
+    verdict, why_aa = kernelspec.compare(aa, "apply_along_axes")
+    if verdict == "incomparable":
+        raise AnalysisError(f"apply_along_axes cannot be compared with its reference definition: {why_aa[0]}")
+    ok = verdict == "same"
     (res.ok if ok else res.bad)("R3", aa, aa.node, "apply_along_axes: axis=None -> f(flattened); else the named axes are moved first, merged, and f is "
                                 "applied to each lane" if ok else "apply_along_axes no longer flattens for axis=None / iterates lanes of the moved axes",
                                 construct="apply_along_axes", key="apply_along_axes")
@@ -133,9 +183,28 @@ def run(prog: Program, res: Result, tier: str) -> None:
     check_doublemad_symmetry(prog, res, "R5")
 
     # ---- R4 keepdims re-expansion -------------------------------------------------------------------------------
-    src = norm(es.node)
-    ok = "if axis is None: result = np.expand_dims(result, axis=tuple(range(data.ndim)))" in src and "else: result = np.expand_dims(result, axis=axis)" in src \
-        and "result = scale_func(data, axis)" in src
+    from ..pathcond import holds, path_conditions
+    from ..normalform import canon
+    fes = flow_of(es)
+    pce = path_conditions(fes)
+    exps = [c for c in calls_in_body(es.node) if dotted(c.func) == "np.expand_dims"]
+    seen_none = seen_axis = False
+    ok = bool(exps)
+    for c in exps:
+        ax = next((k.value for k in c.keywords if k.arg == "axis"), c.args[1] if len(c.args) > 1 else None)
+        arr = c.args[0] if c.args else None
+        if ax is None or arr is None or holds(pce, c, "keepdims") is None:
+            ok = False
+        elif holds(pce, c, "axis is None") is not None:
+            seen_none = True
+            ok = ok and canon(ax) == canon("tuple(range(data.ndim))")
+        elif holds(pce, c, "axis is not None") is not None:
+            seen_axis = True
+            ok = ok and canon(ax) == canon("axis")
+        else:
+            ok = False
+    calls_impl = [c for c in calls_in_body(es.node) if dotted(c.func) == "scale_func" and [norm(a) for a in c.args] == ["data", "axis"]]
+    ok = ok and seen_none and seen_axis and len(calls_impl) == 1
     (res.ok if ok else res.bad)("R4", es, es.node, "keepdims re-inserts exactly the reduced axes (all axes for axis=None)" if ok else
                                 "estimate_scale: keepdims does not re-expand the axes that were reduced", construct="keepdims", key="scale:keepdims")
     res.floor("R1", 2)
